@@ -1457,7 +1457,7 @@ def oracle_wseq(case):
             s.T = T0
             ph0 = s.phases
             where = (f'solve-history: {w} assignment #{i + 1} of a sequence (total flow {s.F_mol:g} kmol/hr, {"/".join(ph0)}, '
-                     f'{T0:g} -> {Tt:g} K, P={r["P"]:g}) after assignments on streams of scale {done}')
+                     f'{T0:g} -> {Tt:g} K, P={r["P"]:g}) after the assignments of this sequence on streams of scale {done} (and every solve made earlier in the process)')
             try:
                 setattr(s, w, target)
             except Exception as ex:
